@@ -322,6 +322,20 @@ func c01Hist(toks []string) (out string) {
 	return fmt.Sprintf("ok %s entries=%d calls=%d", strings.Join(sum, ","), r.entries, r.calls)
 }
 
+type c01Capped struct {
+	buf  bytes.Buffer
+	max  int
+	full bool
+}
+
+func (c *c01Capped) Write(p []byte) (int, error) {
+	if c.buf.Len()+len(p) > c.max {
+		c.full = true
+		return len(p), nil
+	}
+	return c.buf.Write(p)
+}
+
 func c01Stmt(toks []string) (out string) {
 	defer func() {
 		if x := recover(); x != nil {
@@ -336,16 +350,19 @@ func c01Stmt(toks []string) (out string) {
 		}
 		return "err"
 	}
-	var b bytes.Buffer
+	// Write's output grows with the square of the nesting depth: keep at most 4 MB of it
+	b := &c01Capped{max: 4 << 20}
 	for _, s := range ss {
-		if err := s.Write(&b, ""); err != nil {
+		if err := s.Write(b, ""); err != nil {
 			return "BROKEN Write failed on a buffer"
 		}
 		_ = s.Location()
 		_, _ = s.Arg()
 	}
 	// the written form is for display; parsing it again must not crash either
-	_, _ = yang.Parse(b.String(), "w.yang")
+	if !b.full {
+		_, _ = yang.Parse(b.buf.String(), "w.yang")
+	}
 	return "ok " + strconv.Itoa(len(ss))
 }
 
